@@ -201,7 +201,8 @@ def _gen_wrapper(rng, faulty):
     if kind == "muscle3":
         w["version"] = {"kind": "ok", "banner": "MUSCLE v3.8.31 by Robert C. Edgar\n"}
     elif kind == "muscle5":
-        w["version"] = {"kind": "ok", "banner": "muscle 5.1.linux64 []\n"}
+        # documented: MUSCLE version >= 5
+        w["version"] = {"kind": "ok", "banner": rng.choice(["muscle 5.1.linux64 []\n", "muscle 5.1.linux64 []\n", "muscle 6.0.linux64 []\n", "muscle 10.2.osx64 []\n"])}
     if kind in ("muscle3", "muscle5") and faulty and rng.random() < 0.12:
         w["version"] = rng.choice([
             {"kind": "wrong", "banner": "muscle 5.1.linux64 []\n" if kind == "muscle3" else "MUSCLE v3.8.31 by Robert C. Edgar\n"},
